@@ -144,7 +144,15 @@ func runC07(t *T) {
 			got := applyOp(view, o)
 			want := applyOp(B, ob)
 			t.Logf("%d view(%q) %s -> view=%s direct(%s)=%s", i, dir, o, errClass(got.Err), ob.P, errClass(want.Err))
-			if errClass(got.Err) != errClass(want.Err) {
+			invalidName := !hackpadfs.ValidPath(o.P) || (o.Kind == "Rename" && !hackpadfs.ValidPath(o.Q))
+			if invalidName {
+				// "dir joined with name" is not defined for a name that is not a valid path; what the statement
+				// asks of it is that nothing outside dir is reached: the view has to refuse (which of the checks of
+				// view and parent answers first is not specified), and the instances still agree below
+				if got.Err == nil {
+					t.Fail("outcome", sig+":invalid-name-accepted-by-view", fmt.Sprintf("%s on Sub(%s, %q) succeeded although the name is not a valid path", o, k.name, dir))
+				}
+			} else if errClass(got.Err) != errClass(want.Err) {
 				t.Fail("outcome", sig+":view="+errClass(got.Err)+":direct="+errClass(want.Err),
 					fmt.Sprintf("%s on Sub(%s, %q): %v; the same operation on the parent at %q: %v", o, k.name, dir, got.Err, ob.P, want.Err))
 			}
